@@ -124,12 +124,21 @@ type camera struct {
 	seqno    uint16
 	conc     bool          // concurrency scenario: every request is answered ok, play = one packet at [kick], close at [gate]
 	kick     chan struct{}
+	repl     bool           // replaced-pull scenario: each connection is gated and commanded on its own
+	arrived  chan *camConn  // a connection whose first request has been read
+}
+
+// one camera connection of the replaced-pull scenario
+type camConn struct {
+	gate chan struct{} // closed: answer the handshake
+	cmd  chan int64    // play phase: -1 = send a packet, otherwise the reply kind that ends the connection
+	done chan struct{} // closed when the handler has returned
 }
 
 func (c *camera) next() int64 {
 	c.mu.Lock()
 	defer c.mu.Unlock()
-	if c.conc {
+	if c.conc || c.repl {
 		return kOk
 	}
 	if c.pos >= len(c.script) {
@@ -285,11 +294,23 @@ func (c *camera) serve(conn net.Conn) {
 		}
 	}
 	nreq := 0
+	var cc *camConn
+	if c.repl {
+		cc = &camConn{gate: make(chan struct{}), cmd: make(chan int64, 8), done: make(chan struct{})}
+		defer close(cc.done)
+	}
 	for {
 		rec, cseq, ok := c.readRequest(br)
 		if !ok {
 			atomic.AddInt32(&c.peerGone, 1)
 			return
+		}
+		if cc != nil && nreq == 0 {
+			c.arrived <- cc
+			select {
+			case <-cc.gate:
+			case <-time.After(20 * time.Second):
+			}
 		}
 		c.mu.Lock()
 		c.reqs = append(c.reqs, rec)
@@ -311,6 +332,10 @@ func (c *camera) serve(conn net.Conn) {
 				io.WriteString(conn, head(200, "OK")+"Transport: RTP/AVP/TCP;unicast;interleaved=0-1\r\nSession: "+camSess+";timeout=60\r\n\r\n")
 			case "PLAY":
 				io.WriteString(conn, head(200, "OK")+"Session: "+camSess+"\r\nRange: npt=0.000-\r\n\r\n")
+				if cc != nil {
+					c.playRepl(conn, cc, closeConn, drain)
+					return
+				}
 				c.play(conn, br, closeConn, drain)
 				return
 			default:
@@ -350,6 +375,38 @@ func (c *camera) rtpPacket() []byte {
 	p := []byte{0x80, 96, byte(c.seqno >> 8), byte(c.seqno), 0, 0, byte(c.seqno >> 8), byte(c.seqno), 0x11, 0x22, 0x33, 0x44,
 		0x41, 0x9a, 0x01, 0x02, 0x03, 0x04}
 	return append([]byte{'$', 0, byte(len(p) >> 8), byte(len(p))}, p...)
+}
+
+// play phase of the replaced-pull scenario: commands from the harness; the pull client may also go away by itself
+func (c *camera) playRepl(conn net.Conn, cc *camConn, closeConn func(bool), drain func()) {
+	gone := make(chan struct{})
+	go func() { drain(); close(gone) }()
+	for {
+		select {
+		case <-gone:
+			return
+		case k := <-cc.cmd:
+			switch k {
+			case -1:
+				c.mu.Lock()
+				pkt := c.rtpPacket()
+				c.mu.Unlock()
+				conn.Write(pkt)
+			case kReset:
+				closeConn(true)
+				<-gone
+				return
+			default:
+				if tc, ok := conn.(*net.TCPConn); ok {
+					tc.CloseWrite()
+				}
+				<-gone
+				return
+			}
+		case <-time.After(30 * time.Second):
+			return
+		}
+	}
 }
 
 func (c *camera) play(conn net.Conn, br *bufio.Reader, closeConn func(bool), drain func()) {
@@ -875,7 +932,143 @@ func concCase(c Val) Val {
 	return L(Bo(answers == int64(n)), I(lv), I(int64(sc)), I(member), I(cn), I(k), I(g), L(I(fc), I(fr), I(fk), I(fg)))
 }
 
+type cntConsumer struct{ closes int32 }
+
+func (r *cntConsumer) Consume(p media.Pack) {}
+func (r *cntConsumer) Close() error         { atomic.AddInt32(&r.closes, 1); return nil }
+
+// two overlapping first requests; consumers attach before the other registration; the cameras end later.
+// case = (tracks first attach1 attach2 end2first kind1 kind2 keepalive)
+// observation = three points (after both registered and a packet on every connection; after the first camera
+// ended; after the second) of (closed1 closed2 cc1 cc2 registered conns counter goroutines)
+func replCase(c Val) Val {
+	setup()
+	runtime.GC()
+	first := int(c.At(1).Int()) & 1
+	attach := [2]bool{c.At(2).Bool(), c.At(3).Bool()}
+	end2first := c.At(4).Bool()
+	kinds := [2]int64{c.At(5).Int(), c.At(6).Int()}
+	media.VerifResetRegistry()
+	route.Reset(mem{})
+	cam := newCamera(sdpFor(c.At(0).Int(), 0))
+	cam.mu.Lock()
+	cam.repl = true
+	cam.arrived = make(chan *camConn, 8)
+	cam.mu.Unlock()
+	defer cam.ln.Close()
+	w := &world{cfg: cfgT{creds: 0, routed: true}, cam: cam, path: "/c20/cam", base: stats.RtspConns.GetSample().Active}
+	route.Save(&route.Route{Pattern: w.path, URL: w.routeURL(false), KeepAlive: c.At(7).Bool()})
+
+	// both requesters are past the registry lookup before either camera connection is served
+	var res [2]chan *media.Stream
+	var conn [2]*camConn
+	for i := 0; i < 2; i++ {
+		res[i] = make(chan *media.Stream, 1)
+		ch := res[i]
+		go func() {
+			var s *media.Stream
+			defer func() { recover(); ch <- s }()
+			s = media.GetOrCreate(w.path)
+		}()
+		select {
+		case conn[i] = <-cam.arrived:
+		case <-time.After(5 * time.Second):
+			panic("c20repl: the requester did not reach the camera")
+		}
+	}
+	order := [2]int{first, 1 - first} // requester index of stream "1" and stream "2"
+	var st [2]*media.Stream
+	var cons [2]*cntConsumer
+	wait := func(d time.Duration, f func() bool) {
+		if leakSeen && d > 300*time.Millisecond {
+			d = 300 * time.Millisecond
+		}
+		if !waitFor(d, f) {
+			leakSeen = true
+		}
+	}
+	for n := 0; n < 2; n++ {
+		close(conn[order[n]].gate)
+		select {
+		case st[n] = <-res[order[n]]:
+		case <-time.After(netTimeout*4 + 5*time.Second):
+		}
+		if st[n] == nil {
+			panic("c20repl: a requester got no stream from an all-ok camera")
+		}
+		s := st[n]
+		wait(3*time.Second, func() bool { return media.Get(w.path) == s })
+		wait(3*time.Second, func() bool { return stats.RtspConns.GetSample().Active-w.base == int64(n+1) })
+		if attach[n] {
+			cons[n] = &cntConsumer{}
+			s.StartConsume(cons[n], media.RTPPacket, "c20repl")
+		}
+	}
+	if st[0] == st[1] {
+		panic("c20repl: the two requests did not overlap (set-up)")
+	}
+	running := [2]bool{true, true}
+	observe := func() Val {
+		exp := int64(0)
+		for _, r := range running {
+			if r {
+				exp++
+			}
+		}
+		wait(netTimeout+3*time.Second, func() bool {
+			cn, _, k, g := w.resources()
+			return cn == exp && k == exp && g == exp
+		})
+		time.Sleep(2 * time.Millisecond)
+		cn, _, k, g := w.resources()
+		cl := [2]int64{}
+		for i := 0; i < 2; i++ {
+			if cons[i] != nil {
+				cl[i] = int64(atomic.LoadInt32(&cons[i].closes))
+			}
+		}
+		reg := int64(0)
+		switch media.Get(w.path) {
+		case nil:
+		case st[0]:
+			reg = 1
+		case st[1]:
+			reg = 2
+		default:
+			reg = 3
+		}
+		return L(I(cl[0]), I(cl[1]), I(int64(st[0].ConsumerCount())), I(int64(st[1].ConsumerCount())), I(reg), I(cn), I(k), I(g))
+	}
+	// a packet on every connection: a pull client whose stream was closed at the replacement goes away
+	for i := 0; i < 2; i++ {
+		conn[i].cmd <- -1
+	}
+	running[0] = attach[0]
+	o1 := observe()
+	e := [2]int{0, 1}
+	if end2first {
+		e = [2]int{1, 0}
+	}
+	conn[order[e[0]]].cmd <- kinds[0]
+	running[e[0]] = false
+	o2 := observe()
+	conn[order[e[1]]].cmd <- kinds[1]
+	running[e[1]] = false
+	o3 := observe()
+	// leave nothing behind for the next case
+	for i := 0; i < 2; i++ {
+		media.Unregist(st[i])
+		st[i].Close()
+		select {
+		case <-conn[i].done:
+		case <-time.After(300 * time.Millisecond):
+		}
+	}
+	return L(o1, o2, o3)
+}
+
 func init() {
 	commands["C20"] = runCase
 	commands["C20conc"] = concCase
+	commands["C20repl"] = replCase
 }
